@@ -5,6 +5,8 @@
 
 (define-syntax let
     (syntax-rules ()
+        ((let () body ...)
+            ((lambda () body ...)))
         ((let ((name val) ...) body ...)
             ((lambda (name ...) body ...)
                 val ...))))
